@@ -130,4 +130,34 @@ theorem validated_pairs (body : List BHdr) (bs i : Nat) (a c : BHdr) (h : valida
   simp only [Bool.and_eq_true] at h
   exact pairsOk_pair body i a c h.2 ha hc
 
+theorem pairsOk_of_pairs : ∀ (l : List BHdr),
+    (∀ i a c, l[i]? = some a → l[i + 1]? = some c → pairOk a c = true) → pairsOk l = true
+  | [], _ => rfl
+  | [_], _ => rfl
+  | x :: y :: rest, h => by
+    rw [pairsOk_cons_cons, Bool.and_eq_true]
+    refine ⟨h 0 x y rfl rfl, pairsOk_of_pairs (y :: rest) (fun i a c ha hc => h (i + 1) a c ?_ ?_)⟩
+    · simpa using ha
+    · simpa using hc
+
+/-- **The validated index range is exactly `1 .. len-1`** (heights
+`(startHeight, endHeight]`): the validator accepts a body iff every index from 1
+to the last passes `ValidatePair` against the index before it — none skipped,
+whatever the batch size — plus the first-batch rule for index 0. -/
+theorem validateBlocks_iff (body : List BHdr) (bs : Nat) :
+    validateBlocks body bs = true ↔
+      ((min bs body.length = 1 → (body.head?.map (·.valid)).getD true = true) ∧
+       ∀ i a c, body[i]? = some a → body[i + 1]? = some c → pairOk a c = true) := by
+  unfold validateBlocks
+  rw [Bool.and_eq_true]
+  constructor
+  · rintro ⟨h1, h2⟩
+    refine ⟨fun hm => ?_, fun i a c ha hc => pairsOk_pair body i a c h2 ha hc⟩
+    simpa [hm] using h1
+  · rintro ⟨h1, h2⟩
+    refine ⟨?_, pairsOk_of_pairs body h2⟩
+    by_cases hm : min bs body.length = 1
+    · simpa [hm] using h1 hm
+    · simp [hm]
+
 end Neutrino.Import
